@@ -222,21 +222,32 @@ Inductive fault :=
 | FStatus (code : nat)      (* answered with this status and a CouchDB error document *)
 | FGarbage                  (* answered 200 with a body that is not JSON *)
 | FDrop (t : transport)     (* no answer; the request is not processed *)
-| FLost (t : transport).    (* the request IS processed by the server, the answer is lost on the wire *)
-Definition fault_result (ft : fault) : netresult :=
+| FLost (t : transport)     (* the request IS processed by the server, the answer is lost on the wire *)
+(* the same two events seen through the module's connection pool, urllib3.PoolManager(retries=Retry(3,
+   allowed_methods=["GET", "HEAD"])): after a read error a lookup (GET / HEAD) is sent again, up to 3 times, and the
+   pool gives up with MaxRetryError; PUT / DELETE are not sent again, their ProtocolError reaches do_request *)
+| FDropPool                 (* every attempt dropped before processing *)
+| FLostPool.                (* first attempt processed and its answer lost; a repetition is served normally *)
+Definition is_read (m : meth) : bool := match m with GET | HEAD => true | _ => false end.
+Definition fault_result (m : meth) (ft : fault) : netresult :=
   match ft with
   | FStatus code => Resp (jerr code)
   | FGarbage => Resp (mkResp 200 true None PGarbage)
   | FDrop t => Fail t
   | FLost t => Fail t
+  | FDropPool => Fail (if is_read m then TOther else TProto)
+  | FLostPool => Fail TProto
   end.
-Definition processed (ft : fault) : bool := match ft with FLost _ => true | _ => false end.
+Definition processed (ft : fault) : bool := match ft with FLost _ | FLostPool => true | _ => false end.
+(* the pool repeats the request and the repetition gets through *)
+Definition repeated (ft : fault) (m : meth) : bool := match ft with FLostPool => is_read m | _ => false end.
 (* at most one fault per operation: (index of the request within the operation, fault) *)
 Definition fspec := option (nat * fault).
 Definition send (c : cfg) (f : fspec) (n : nat) (sv : server) (rq : request) : server * netresult :=
   match f with
   | Some (k, ft) => if Nat.eqb k n
-                    then ((if processed ft then fst (serve c sv rq) else sv), fault_result ft)
+                    then if repeated ft (rq_meth rq) then let '(sv', r) := serve c sv rq in (sv', Resp r)
+                         else ((if processed ft then fst (serve c sv rq) else sv), fault_result (rq_meth rq) ft)
                     else let '(sv', r) := serve c sv rq in (sv', Resp r)
   | None => let '(sv', r) := serve c sv rq in (sv', Resp r)
   end.
